@@ -65,6 +65,8 @@ MEMBERS = {
     "member-in-inner": ("base = [1, 2, 3]\nsquares = [x * x for x in base]\nwidths = {f: len(f) for f in ('a', 'bb')}\nscale = 3\n"
                         "times = lambda self, v, s=scale: v * s\ngen = list(b + 1 for b in base if b)\nfirst = {q for q in base}",
                         "print(K.squares, K.widths, K().times(2), K.gen, sorted(K.first))"),
+    "kwdefault-member": ("SEP = '-'\nLIMIT = 3\ndef join(self, items, *, sep=SEP, limit=LIMIT):\n    return sep.join(items[:limit])\n@staticmethod\ndef tag(*, t=SEP * 2):\n    return t",
+                         "print(K().join(['a', 'b', 'c', 'd']), K.tag(), sorted(K.join.__kwdefaults__.items()))"),
     # the two hooks type.__new__ makes class methods implicitly - when, and only when, the member is a plain function
     "hook-getitem": ("def __class_getitem__(cls, key):\n    return (cls.__name__, key)", "print(K[1], K['a'])"),
     "hook-getitem-cm": ("@classmethod\ndef __class_getitem__(cls, key):\n    return (cls.__name__, key)", "print(K[1], K['a'])"),
